@@ -291,10 +291,11 @@ def OneCmd (c : Cfg) (L : Layout) (n : Nat) : Prop :=
 
 instance (c : Cfg) (L : Layout) (n : Nat) : Decidable (OneCmd c L n) := by unfold OneCmd; infer_instance
 
-theorem writeCmds_eq {c m L data m1 m2 m3} (w : WriteSpec c m L data m1 m2 m3) :
+theorem writeCmds_eq {c m L data m1 m2 m3a m3} (w : WriteSpec c m L data m1 m2 m3a m3) :
     writeCmds c m L data =
-      ⟨diffUnits c.unit m m1 ++ diffUnits c.unit m1 m2 ++ diffUnits c.unit m2 m3, .ok ()⟩ := by
-  unfold writeCmds; rw [w.p1]; simp only; rw [w.p2]; simp only; rw [w.p3]
+      ⟨diffUnits c.unit m m1 ++ diffUnits c.unit m1 m2 ++ diffUnits c.unit m2 m3a ++ diffUnits c.unit m3a m3,
+        .ok ()⟩ := by
+  unfold writeCmds; rw [w.p1]; simp only; rw [w.p2]; simp only; rw [w.p3a]; simp only; rw [w.p3]
 
 theorem div_bounds (a u : Nat) (hu : 0 < u) : a / u * u ≤ a ∧ a < a / u * u + u := by
   have h1 := Nat.div_add_mod a u
@@ -302,82 +303,256 @@ theorem div_bounds (a u : Nat) (hu : 0 < u) : a / u * u ≤ a ∧ a < a / u * u 
   have h3 : a / u * u = u * (a / u) := Nat.mul_comm _ _
   omega
 
-/-- the reader's view after any prefix of the command list of a write -/
+/-! ### prefixes of a write-back are threshold images -/
+
+theorem take_filterMap_range {α} (f : Nat → Option α) (n k : Nat) :
+    ∃ j, ((List.range n).filterMap f).take k = (List.range j).filterMap f := by
+  induction n with
+  | zero => exact ⟨0, by simp⟩
+  | succ n ih =>
+    rw [List.range_succ, List.filterMap_append]
+    by_cases hk : k ≤ ((List.range n).filterMap f).length
+    · rw [List.take_append_of_le_length hk]; exact ih
+    · rw [List.take_append, List.take_of_length_le (by omega)]
+      cases hf : f n with
+      | none => exact ⟨n, by simp [hf]⟩
+      | some v =>
+        refine ⟨n + 1, ?_⟩
+        rw [List.range_succ, List.filterMap_append]
+        have : List.filterMap f [n] = [v] := by simp [hf]
+        rw [this]
+        congr 1
+        apply List.take_of_length_le
+        simp; omega
+
+/-- after any prefix of a write-back the tag holds the new image below a unit boundary and the
+old image from there on -/
+theorem prefix_threshold (u : Nat) (hu : 0 < u) (m m' : Bytes) (hl : m.length = m'.length) (k : Nat) :
+    ∃ j, ∀ x : Nat, (apply m ((diffUnits u m m').take k))[x]? = if x < j * u then m'[x]? else m[x]? := by
+  unfold diffUnits
+  obtain ⟨j, hj⟩ := take_filterMap_range (fun i =>
+      if sliceN m (i * u) (i * u + u) ≠ sliceN m' (i * u) (i * u + u)
+      then some (i * u, sliceN m' (i * u) (i * u + u)) else none) ((m.length + u - 1) / u) k
+  rw [hj]
+  exact ⟨j, (apply_diff_prefix u hu m m' hl j).2⟩
+
+theorem take_two {α} (a b : List α) (k : Nat) :
+    (a ++ b).take k = a.take k ∨ ∃ k', (a ++ b).take k = a ++ b.take k' := by
+  by_cases h : k ≤ a.length
+  · left; exact List.take_append_of_le_length h
+  · right; exact ⟨k - a.length, by rw [List.take_append, List.take_of_length_le (by omega)]⟩
+
+/-- an image that equals `m` in front of the length field and whose 3-byte length field reads
+`FF 00 00` shows an empty message -/
+theorem empty3_view (c : Cfg) (m img : Bytes) (L : Layout) (hr : ReadsAs c m L) (hwf : WF c m L)
+    (hb : ∀ x, x < L.off + 1 → img[x]? = m[x]?) (h1 : img[L.off + 1]? = some 255)
+    (h2 : img[L.off + 2]? = some 0) (h3 : img[L.off + 3]? = some 0) :
+    ReadsAs c img { L with ndef := [] } := by
+  have hcc := hwf.1
+  have hst := hwf.2.2.1
+  have hrd : ∀ x, x < L.off + 1 → rd c img x = rd c m x := fun x hx => rd_congr c m img x (hb x hx)
+  refine ⟨by rw [hrd _ (by omega)]; exact hr.magic, ?_, ?_, ?_, pre_stable c m img L hwf hb, ?_, hr.cap⟩
+  · rw [hrd _ (by omega)]; exact hr.ver
+  · rw [hrd _ (by omega)]; exact hr.acc
+  · rw [hrd _ (by omega)]; exact hr.size
+  · have hrl : readLen (rd c img) (L.off + 1) = .ok (0 * 256 + 0, L.off + 1 + 3) := by
+      unfold readLen
+      rw [(rd_ok_iff c img _ _).2 h1, Py.bind_ok, if_pos rfl, (rd_ok_iff c img _ _).2 h2, Py.bind_ok,
+        (rd_ok_iff c img _ _).2 h3, Py.bind_ok]
+    exact ⟨_, hrl, rfl⟩
+
+/-- what the preparation step stores in the two extra length bytes -/
+theorem pre3_zero (u : Nat) (m2 : Bytes) (off n : Nat) (hn : ¬ n < 255)
+    (hz : (off + 1) / u ≠ (off + 2) / u ∧ (off + 2) / u = (off + 3) / u) (hl : off + 3 < m2.length) :
+    (pre3 u m2 off n)[off + 2]? = some 0 ∧ (pre3 u m2 off n)[off + 3]? = some 0 := by
+  unfold pre3; rw [if_neg hn, if_pos hz]
+  exact ⟨by rw [get_set_ne _ _ _ _ (by omega)]; exact get_set_eq _ _ _ (by omega),
+         get_set_eq _ _ _ (by simp; omega)⟩
+
+/-- outside the zero case, length bytes in a later unit than `FF` already hold their final value -/
+theorem pre3_final (u : Nat) (m2 : Bytes) (off n : Nat) (hn : ¬ n < 255)
+    (hz : ¬ ((off + 1) / u ≠ (off + 2) / u ∧ (off + 2) / u = (off + 3) / u)) (hl : off + 3 < m2.length) :
+    ((off + 2) / u ≠ (off + 1) / u → (pre3 u m2 off n)[off + 2]? = some (n / 256))
+    ∧ ((off + 3) / u ≠ (off + 1) / u → (pre3 u m2 off n)[off + 3]? = some (n % 256)) := by
+  unfold pre3; rw [if_neg hn, if_neg hz]
+  simp only
+  refine ⟨fun h2 => ?_, fun h3 => ?_⟩
+  · rw [if_pos h2]
+    split
+    · rw [get_set_ne _ _ _ _ (by omega)]; exact get_set_eq _ _ _ (by omega)
+    · exact get_set_eq _ _ _ (by omega)
+  · rw [if_pos h3]
+    split
+    · exact get_set_eq _ _ _ (by simp; omega)
+    · exact get_set_eq _ _ _ (by omega)
+
+/-- **cut safety**: the reader's view after any prefix of the command list of a write -/
 theorem cut_safe (c : Cfg) (m : Bytes) (L : Layout) (data : Bytes)
-    (hr : ReadsAs c m L) (hwf : WF c m L) (hcap : (data.length : Int) ≤ L.cap)
-    (h1 : OneCmd c L data.length) (k : Nat) :
+    (hr : ReadsAs c m L) (hwf : WF c m L) (hcap : (data.length : Int) ≤ L.cap) (k : Nat) :
     ReadsAs c (apply m ((writeCmds c m L data).cmds.take k)) L
     ∨ ReadsAs c (apply m ((writeCmds c m L data).cmds.take k)) { L with ndef := [] }
     ∨ ReadsAs c (apply m ((writeCmds c m L data).cmds.take k)) { L with ndef := data } := by
-  obtain ⟨m1, m2, m3, w, hnew⟩ := roundtrip c m L data hr hwf hcap
+  obtain ⟨m1, m2, m3a, m3, w, hnew⟩ := roundtrip c m L data hr hwf hcap
   have hu : 0 < c.unit := hwf.2.1
   have hl1 := w.len1
   have hl2 := w.len2
   have hl3 := w.len3
+  have hl3a : m3a.length = m.length := by rw [w.m3a_eq, pre3_length, hl2]
   have hfit := w.fits
   have har := w.area
   have hh := hdrLen_ge data.length
   have h10 : m1[L.off + 1]? = some 0 := by rw [w.m1_eq]; exact get_set_eq _ _ _ (by omega)
   have h20 : m2[L.off + 1]? = some 0 := by rw [w.m2_below _ (by omega)]; exact h10
+  have h3a_out : ∀ x, x ≠ L.off + 2 → x ≠ L.off + 3 → m3a[x]? = m2[x]? := fun x h2 h3 => by
+    rw [w.m3a_eq]; exact pre3_get _ _ _ _ x h2 h3
+  have h3a0 : m3a[L.off + 1]? = some 0 := by rw [h3a_out _ (by omega) (by omega)]; exact h20
+  have h3a_below : ∀ x, x < L.off + 1 → m3a[x]? = m[x]? := fun x hx => by
+    rw [h3a_out _ (by omega) (by omega)]; exact (w.below x hx).2.1
+  -- the final image differs from the prepared one only inside the length field
+  have h33 : ∀ x, m3[x]? ≠ m3a[x]? → L.off + 1 ≤ x ∧ x < L.off + hdrLen data.length := by
+    intro x hx
+    apply Classical.byContradiction; intro hcon
+    apply hx
+    have hx' : x < L.off + 1 ∨ L.off + hdrLen data.length ≤ x := by omega
+    by_cases hn : data.length < 255
+    · have : m3a = m2 := by rw [w.m3a_eq]; unfold pre3; rw [if_pos hn]
+      rw [this]; exact w.m3_out x hx'
+    · have h4 : hdrLen data.length = 4 := by unfold hdrLen; simp [hn]
+      rw [w.m3_out x hx', h3a_out x (by omega) (by omega)]
   have a1 : apply m (diffUnits c.unit m m1) = m1 := apply_diff _ hu _ _ hl1.symm
   have a2 : apply m1 (diffUnits c.unit m1 m2) = m2 := apply_diff _ hu _ _ (by omega)
-  have a3 : apply m2 (diffUnits c.unit m2 m3) = m3 := apply_diff _ hu _ _ (by omega)
+  have a3a : apply m2 (diffUnits c.unit m2 m3a) = m3a := apply_diff _ hu _ _ (by omega)
+  have a3 : apply m3a (diffUnits c.unit m3a m3) = m3 := apply_diff _ hu _ _ (by omega)
+  have emptyView : ∀ img, (∀ x, x < L.off + 1 → img[x]? = m[x]?) → img[L.off + 1]? = some 0 →
+      ReadsAs c img { L with ndef := [] } := fun img hb h0 => empty_view c m img L hr hwf hb h0
   rw [writeCmds_eq w]
   simp only
-  rcases take_three (diffUnits c.unit m m1) (diffUnits c.unit m1 m2) (diffUnits c.unit m2 m3) k with h | ⟨k', h⟩ | ⟨k', h⟩
-  · -- inside phase 1: one byte differs
-    rw [h]
-    have hm := prefix_mix c.unit m m1 hl1.symm k
-    rcases mix_single m m1 _ (L.off + 1) hm (fun x hx => by rw [w.m1_eq]; exact get_set_ne _ _ _ _ (Ne.symm hx)) with e | e
-    · rw [e]; exact Or.inl hr
-    · rw [e]; exact Or.inr (Or.inl (empty_view c m m1 L hr hwf (fun x hx => (w.below x hx).1) h10))
-  · -- inside phase 2: the length byte is 0 in every mixture of m1 and m2
-    rw [h, apply_append, a1]
-    have hm := prefix_mix c.unit m1 m2 (by omega) k'
-    refine Or.inr (Or.inl (empty_view c m _ L hr hwf (fun x hx => ?_) ?_))
-    · rcases hm.2 x with e | e
-      · rw [e]; exact (w.below x hx).1
-      · rw [e]; exact (w.below x hx).2.1
-    · rcases hm.2 (L.off + 1) with e | e
-      · rw [e]; exact h10
-      · rw [e]; exact h20
-  · -- phase 3: at most one command
-    rw [h, apply_append, apply_append, a1, a2]
-    have hone : (diffUnits c.unit m2 m3).length ≤ 1 := by
-      apply diffUnits_le_one c.unit m2 m3 ((L.off + 1) / c.unit)
-      intro x hx
-      have hx' : ¬ (x < L.off + 1 ∨ L.off + hdrLen data.length ≤ x) := fun hh => hx (w.m3_out x hh).symm
-      have b1 := div_bounds (L.off + 1) c.unit hu
-      rcases h1 with hn | hal
-      · have : hdrLen data.length = 2 := by unfold hdrLen; simp [hn]
-        omega
-      · have b3 := div_bounds (L.off + 3) c.unit hu
-        rw [← hal] at b3
-        have : hdrLen data.length ≤ 4 := by unfold hdrLen; split <;> omega
-        omega
-    rcases take_le_one _ k' hone with e | e
-    · rw [e]
-      exact Or.inr (Or.inl (empty_view c m m2 L hr hwf (fun x hx => (w.below x hx).2.1) h20))
-    · rw [e, a3]; exact Or.inr (Or.inr hnew)
+  rcases take_two (diffUnits c.unit m m1 ++ diffUnits c.unit m1 m2 ++ diffUnits c.unit m2 m3a)
+      (diffUnits c.unit m3a m3) k with h | ⟨k', h⟩
+  · rw [h]
+    rcases take_three (diffUnits c.unit m m1) (diffUnits c.unit m1 m2) (diffUnits c.unit m2 m3a) k with h | ⟨k', h⟩ | ⟨k', h⟩
+    · -- inside phase 1: one byte differs
+      rw [h]
+      have hm := prefix_mix c.unit m m1 hl1.symm k
+      rcases mix_single m m1 _ (L.off + 1) hm (fun x hx => by rw [w.m1_eq]; exact get_set_ne _ _ _ _ (Ne.symm hx)) with e | e
+      · rw [e]; exact Or.inl hr
+      · rw [e]; exact Or.inr (Or.inl (emptyView m1 (fun x hx => (w.below x hx).1) h10))
+    · -- inside phase 2: the length byte is 0 in every mixture of m1 and m2
+      rw [h, apply_append, a1]
+      have hm := prefix_mix c.unit m1 m2 (by omega) k'
+      refine Or.inr (Or.inl (emptyView _ (fun x hx => ?_) ?_))
+      · rcases hm.2 x with e | e
+        · rw [e]; exact (w.below x hx).1
+        · rw [e]; exact (w.below x hx).2.1
+      · rcases hm.2 (L.off + 1) with e | e
+        · rw [e]; exact h10
+        · rw [e]; exact h20
+    · -- preparation of the length field: the first length byte stays 0
+      rw [h, apply_append, apply_append, a1, a2]
+      have hm := prefix_mix c.unit m2 m3a (by omega) k'
+      refine Or.inr (Or.inl (emptyView _ (fun x hx => ?_) ?_))
+      · rcases hm.2 x with e | e
+        · rw [e]; exact (w.below x hx).2.1
+        · rw [e]; exact h3a_below x hx
+      · rcases hm.2 (L.off + 1) with e | e
+        · rw [e]; exact h20
+        · rw [e]; exact h3a0
+  · -- the final length field
+    rw [h, apply_append, apply_append, apply_append, a1, a2, a3a]
+    have hEmpty3a : ReadsAs c m3a { L with ndef := [] } := emptyView m3a h3a_below h3a0
+    by_cases hz : ¬ data.length < 255 ∧
+        ((L.off + 1) / c.unit ≠ (L.off + 2) / c.unit ∧ (L.off + 2) / c.unit = (L.off + 3) / c.unit)
+    · -- `FF | hi lo`: two commands; between them the field reads FF 00 00
+      obtain ⟨hn, hzz⟩ := hz
+      have h4 : hdrLen data.length = 4 := by unfold hdrLen; simp [hn]
+      obtain ⟨z2, z3⟩ := pre3_zero c.unit m2 L.off data.length hn hzz (by omega)
+      rw [← w.m3a_eq] at z2 z3
+      obtain ⟨j, hj⟩ := prefix_threshold c.unit hu m3a m3 (by omega) k'
+      by_cases hB1 : j * c.unit ≤ L.off + 1
+      · have : apply m3a ((diffUnits c.unit m3a m3).take k') = m3a := by
+          apply List.ext_getElem?; intro x; rw [hj x]
+          split
+          · apply Classical.byContradiction; intro hne
+            have := h33 x hne; omega
+          · rfl
+        rw [this]; exact Or.inr (Or.inl hEmpty3a)
+      · by_cases hB3 : L.off + 3 < j * c.unit
+        · have : apply m3a ((diffUnits c.unit m3a m3).take k') = m3 := by
+            apply List.ext_getElem?; intro x; rw [hj x]
+            split
+            · rfl
+            · apply Classical.byContradiction; intro hne
+              have := h33 x (fun e => hne e.symm); omega
+          rw [this]; exact Or.inr (Or.inr hnew)
+        · -- the boundary lies between FF and hi (it cannot separate hi from lo)
+          have hB2 : j * c.unit ≤ L.off + 2 := by
+            apply Classical.byContradiction; intro hcon
+            have e1 : (L.off + 2) / c.unit < j := (Nat.div_lt_iff_lt_mul hu).2 (by omega)
+            have e2 : j ≤ (L.off + 3) / c.unit := (Nat.le_div_iff_mul_le hu).2 (by omega)
+            omega
+          have e1 : m3[L.off + 1]? = some 255 := by
+            rw [w.m3_eq, if_neg hn, get_set_ne _ _ _ _ (by omega), get_set_ne _ _ _ _ (by omega)]
+            exact get_set_eq _ _ _ (by omega)
+          refine Or.inr (Or.inl (empty3_view c m _ L hr hwf (fun x hx => ?_) ?_ ?_ ?_))
+          · rw [hj x, if_pos (by omega)]; exact (w.below x hx).2.2
+          · rw [hj _, if_pos (by omega)]; exact e1
+          · rw [hj _, if_neg (by omega)]; exact z2
+          · rw [hj _, if_neg (by omega)]; exact z3
+    · -- all bytes that still change lie in the unit of the first length byte: one command
+      have hone : (diffUnits c.unit m3a m3).length ≤ 1 := by
+        apply diffUnits_le_one c.unit m3a m3 ((L.off + 1) / c.unit)
+        intro x hx
+        have hx' := h33 x (fun e => hx e.symm)
+        have b1 := div_bounds (L.off + 1) c.unit hu
+        by_cases hn : data.length < 255
+        · have : hdrLen data.length = 2 := by unfold hdrLen; simp [hn]
+          have : x = L.off + 1 := by omega
+          subst this; exact b1
+        · have h4 : hdrLen data.length = 4 := by unfold hdrLen; simp [hn]
+          have hzz : ¬ ((L.off + 1) / c.unit ≠ (L.off + 2) / c.unit ∧ (L.off + 2) / c.unit = (L.off + 3) / c.unit) :=
+            fun hh => hz ⟨hn, hh⟩
+          obtain ⟨f2, f3⟩ := pre3_final c.unit m2 L.off data.length hn hzz (by omega)
+          rw [← w.m3a_eq] at f2 f3
+          have e2 : m3[L.off + 2]? = some (data.length / 256) := by
+            rw [w.m3_eq, if_neg hn, get_set_ne _ _ _ _ (by omega)]
+            exact get_set_eq _ _ _ (by simp; omega)
+          have e3 : m3[L.off + 3]? = some (data.length % 256) := by
+            rw [w.m3_eq, if_neg hn]
+            exact get_set_eq _ _ _ (by simp; omega)
+          have hcase : x = L.off + 1 ∨ x = L.off + 2 ∨ x = L.off + 3 := by omega
+          rcases hcase with e | e | e
+          · subst e; exact b1
+          · subst e
+            have hsame : (L.off + 2) / c.unit = (L.off + 1) / c.unit := by
+              apply Classical.byContradiction; intro hne
+              exact hx (by rw [f2 hne, e2])
+            have b2 := div_bounds (L.off + 2) c.unit hu
+            rw [hsame] at b2; exact b2
+          · subst e
+            have hsame : (L.off + 3) / c.unit = (L.off + 1) / c.unit := by
+              apply Classical.byContradiction; intro hne
+              exact hx (by rw [f3 hne, e3])
+            have b3 := div_bounds (L.off + 3) c.unit hu
+            rw [hsame] at b3; exact b3
+      rcases take_le_one _ k' hone with e | e
+      · rw [e]; exact Or.inr (Or.inl hEmpty3a)
+      · rw [e, a3]; exact Or.inr (Or.inr hnew)
 
 /-! ### confinement -/
 
 /-- bytes of the NDEF TLV behind its tag byte that lie inside the data area and are not reserved -/
 def Area (L : Layout) (x : Nat) : Prop := L.off < x ∧ x < L.areaEnd ∧ inSkip L.skip x = false
 
-theorem steps_area {c m L data m1 m2 m3} (w : WriteSpec c m L data m1 m2 m3) (hwf : WF c m L)
+theorem steps_area {c m L data m1 m2 m3a m3} (w : WriteSpec c m L data m1 m2 m3a m3) (hwf : WF c m L)
     (h3 : Hdr3 L data.length) :
-    (∀ x, m1[x]? ≠ m[x]? → Area L x) ∧ (∀ x, m2[x]? ≠ m1[x]? → Area L x) ∧ (∀ x, m3[x]? ≠ m2[x]? → Area L x) := by
+    (∀ x, m1[x]? ≠ m[x]? → Area L x) ∧ (∀ x, m2[x]? ≠ m1[x]? → Area L x)
+    ∧ (∀ x, m3a[x]? ≠ m2[x]? → Area L x) ∧ (∀ x, m3[x]? ≠ m3a[x]? → Area L x) := by
   have hfit := w.fits
   have hh := hdrLen_ge data.length
   have hs1 := hwf.2.2.2.2.2
-  refine ⟨fun x hx => ?_, fun x hx => ?_, fun x hx => ?_⟩
-  · have : x = L.off + 1 := by
-      apply Classical.byContradiction; intro hne
-      apply hx; rw [w.m1_eq]; exact get_set_ne _ _ _ _ (fun e => hne e.symm)
-    subst this; exact ⟨by omega, by omega, hs1⟩
-  · have := w.m2_same x hx; exact ⟨by omega, this.2.1, this.2.2⟩
-  · have hx' : ¬ (x < L.off + 1 ∨ L.off + hdrLen data.length ≤ x) := fun hh => hx (w.m3_out x hh)
+  -- the three bytes of the length field
+  have hfield : ∀ x, L.off + 1 ≤ x → x < L.off + hdrLen data.length → Area L x := by
+    intro x h1 h2
     by_cases hn : data.length < 255
     · have : hdrLen data.length = 2 := by unfold hdrLen; simp [hn]
       have : x = L.off + 1 := by omega
@@ -389,6 +564,28 @@ theorem steps_area {c m L data m1 m2 m3} (w : WriteSpec c m L data m1 m2 m3) (hw
       · exact ⟨by omega, by omega, hs1⟩
       · exact ⟨by omega, by omega, s2⟩
       · exact ⟨by omega, by omega, s3⟩
+  have h3a : ∀ x, m3a[x]? ≠ m2[x]? → L.off + 2 ≤ x ∧ x < L.off + hdrLen data.length := by
+    intro x hx
+    by_cases hn : data.length < 255
+    · exact absurd (by rw [w.m3a_eq]; unfold pre3; rw [if_pos hn]) hx
+    · have h4 : hdrLen data.length = 4 := by unfold hdrLen; simp [hn]
+      apply Classical.byContradiction; intro hcon
+      apply hx; rw [w.m3a_eq]; exact pre3_get _ _ _ _ x (by omega) (by omega)
+  refine ⟨fun x hx => ?_, fun x hx => ?_, fun x hx => ?_, fun x hx => ?_⟩
+  · have : x = L.off + 1 := by
+      apply Classical.byContradiction; intro hne
+      apply hx; rw [w.m1_eq]; exact get_set_ne _ _ _ _ (fun e => hne e.symm)
+    subst this; exact ⟨by omega, by omega, hs1⟩
+  · have := w.m2_same x hx; exact ⟨by omega, this.2.1, this.2.2⟩
+  · have := h3a x hx; exact hfield x (by omega) this.2
+  · apply Classical.byContradiction; intro hna
+    apply hx
+    have hout : x < L.off + 1 ∨ L.off + hdrLen data.length ≤ x := by
+      apply Classical.byContradiction; intro hcon
+      exact hna (hfield x (by omega) (by omega))
+    have e2 : m3a[x]? = m2[x]? := Classical.byContradiction fun hne => by
+      have := h3a x hne; omega
+    rw [w.m3_out x hout, e2]
 
 /-- every command of a write-back covers a byte in which the two images differ -/
 theorem cmd_covers (u : Nat) (m m' : Bytes) (hl : m.length = m'.length) (P : Nat → Prop)
